@@ -470,7 +470,7 @@ pub fn run(out: &mut Out, tier: &str, seed: u64, prop: &str) {
     }
     // ---- C18: where the URL ends, verbatim text, variable expansion --------------------------------
     if prop == "C18" {
-        let alphabet = ['x', ';', '#', ' ', '\n', '\t'];
+        let alphabet = ['x', ';', '#', ' ', '\n', '\t', '\r'];
         let max_len = if big { 5 } else { 4 };
         let mut tails: Vec<String> = vec![String::new()];
         let mut cur: Vec<String> = vec![String::new()];
@@ -525,7 +525,9 @@ pub fn run(out: &mut Out, tier: &str, seed: u64, prop: &str) {
     if prop == "C19" {
         let shapes = ["https://x.org/a-1.0.whl", "git+https://github.com/a/b.git", "file:///tmp/x", "http://h/p?q=1", "/abs/path", "./rel", "../rel/p.tar.gz", "rel/p", "C:\\x\\y", ".", "..",
             "requests-2.26.0.tar.gz", "foo.whl", "x.zip", "a.tar.bz2", "a.tgz", "pkg-1.0.tar.xz", "A.TAR.GZ", "a.tar", "a.tbz", "a.tar.lzma", "dir/a.whl", "~/x", "\\\\server\\share", "foo.tar.gz.sig",
-            "${VP_HOME_DIR}/x", "a.tlz", "a.txz", "a.tar.lz", "b.b.zip", "n.gz", "tar.gz", "x.tar.gz2"];
+            "${VP_HOME_DIR}/x", "a.tlz", "a.txz", "a.tar.lz", "b.b.zip", "n.gz", "tar.gz", "x.tar.gz2",
+            // non-ASCII text: byte lengths and char counts differ
+            "../pr\u{f6}ject/dist", "https://example.org/p/nump\u{f6}.whl", "./\u{65e5}\u{672c}/p.whl", "/abs/\u{1F600}x", "https://example.org/a#egg=nump\u{f6}"];
         let suffixes = ["", "[dev]", " ; os_name == 'a'", "[dev,test] ; python_version > '3'", " [x]", "  "];
         // generated: every scheme form x rest, first path segments that are / are not valid names, and
         // leading whitespace before every shape
